@@ -1063,14 +1063,6 @@ E2E_WITNESSES = [
       "ractual": None},
      "--auto-args takes a `double _Complex` parameter (passed in xmm0/xmm1) for an integer argument: it and every "
      "parameter behind it are shown from the wrong registers (g1(1+2i, \"str4\", -70) shows %s)"),
-    ("autoargs-longdouble",
-     {"name": "g1", "types": ["long double", "int", "double"], "rtype": "void",
-      "src": "__attribute__((noinline)) void g1(long double a, int b, double c) { sink++; }\n",
-      "call": "  g1(3.25L, 2147483647, -239.625);\n",
-      "actual": [["txt", ["3.250000"]], ["txt", int_cands(2147483647, 32)], ["txt", ["-239.625000"]]],
-      "ractual": None},
-     "--auto-args counts a `long double` parameter (x87: passed in memory) as a user of an xmm register: every "
-     "float/double parameter behind it is read from the next register (g1(3.25L, 2147483647, -239.625) shows %s)"),
 ]
 
 
@@ -1093,26 +1085,15 @@ def e2e(ctx, impl):
              [E2E_TYPES[7], E2E_TYPES[4], E2E_TYPES[1], E2E_TYPES[8], E2E_TYPES[3], E2E_TYPES[0], E2E_TYPES[0], E2E_TYPES[10]],
              [E2E_TYPES[11], E2E_TYPES[12], E2E_TYPES[0], E2E_TYPES[10]],
              [E2E_TYPES[14], E2E_TYPES[10], E2E_TYPES[0]], [E2E_TYPES[15], E2E_TYPES[10], E2E_TYPES[0]],
-             [E2E_TYPES[13], E2E_TYPES[10], E2E_TYPES[0]], [E2E_TYPES[10], E2E_TYPES[16], E2E_TYPES[17]]]
+             [E2E_TYPES[13], E2E_TYPES[10], E2E_TYPES[0]], [E2E_TYPES[10], E2E_TYPES[16], E2E_TYPES[17]],
+             # repaired (fix: auto-args long double): a double behind a long double
+             [E2E_TYPES[13], E2E_TYPES[0], E2E_TYPES[11]], [E2E_TYPES[11], E2E_TYPES[13], E2E_TYPES[12], E2E_TYPES[11]]]
 
-    def in_known_class(types):
-        # a float/double behind a long double: listed defect autoargs-longdouble (until it stops reproducing)
-        if not still["autoargs-longdouble"]:
-            return False
-        seen = False
-        for t in types:
-            if t[0] == "long double":
-                seen = True
-            elif seen and t[1] == "flt":
-                return True
-        return False
     for rnd in range(ctx.n(1, 8)):
         funcs = [g.function(k + 1, t) for k, t in enumerate(fixed)] if rnd == 0 else []
-        while len(funcs) < ctx.n(17, 24):
+        while len(funcs) < ctx.n(19, 26):
             r = ctx.rng
             types = [r.choice(E2E_TYPES) for _ in range(r.randrange(1, 8))]
-            if in_known_class(types):
-                continue
             funcs.append(g.function(len(funcs) + 1, types))
         nbad = 0
         for f, problem in e2e_run(ctx, impl, funcs, "p%d" % rnd):
@@ -1135,10 +1116,12 @@ def common_meta(ctx):
     ctx.rule = ("a case is one traced call: an argument/return spec list (real parse_argspec) plus register, stack, "
                 "string and pointer values; it is executed by the real libmcount entry/exit hooks in-process and the "
                 "bytes they wrote are read back by the real `uftrace replay` and `uftrace dump`; profiles: boundary "
-                "integers x formats x sizes, string lengths 0..3 / 94..102 / long, NULL, unreadable and non-ASCII "
-                "strings, std::string, pointers to functions, structs by register/stack, %reg and %stack addressing, "
-                "payload totals 1008..1032 around the 1020-byte limit; distinct = distinct (specs, values); "
-                "non-trivial = at least one value is captured")
+                "integers x formats x sizes (incl. /c64), string lengths 0..3 / 94..102 / long, NULL, unreadable and "
+                "non-ASCII strings, std::string, pointers to functions, structs by register/stack, %reg and %stack "
+                "addressing, payload totals 1008..1032 around the 1020-byte limit; plus regression cases of the repaired "
+                "defects; plus end-to-end cases: one function of a generated, compiled C program traced with "
+                "`record -a` (specs from DWARF); distinct = distinct (specs, values); non-trivial = at least one value "
+                "is captured")
     ctx.trusted = [
         "Coq 8.16.1 kernel incl. vm_compute (no native_compute); axioms: see print_assumptions",
         "hand-written model coq/theories/C09/Model.v (save_to_argbuf, x86_64 mcount_arch_get_arg/retval, payload part "
